@@ -61,8 +61,11 @@ def build_harness():
                        extra_flags=['-DHT_SRC_HASH="%s"' % hh])
 
 
-def _exec(args, stdin=None, timeout=1500):
+def _exec(args, stdin=None, timeout=1500, oplog=None):
     env = dict(os.environ)
+    env.pop("HT_OPLOG", None)
+    if oplog:
+        env["HT_OPLOG"] = oplog
     env["ASAN_OPTIONS"] = "detect_leaks=1:abort_on_error=0:allocator_may_return_null=1"
     env["UBSAN_OPTIONS"] = "print_stacktrace=1"
     try:
@@ -130,13 +133,18 @@ def run_job(case):
             elif rc == 3:
                 res.inconclusive = "harness refused to run: %s" % err[-600:]
             else:
-                res.viol.append(("ht/crash-%s:%s" % (ck, case["type"]),
-                                 "order %d: the harness process running the real table code died\n%s"
+                key = "ht/crash-%s:%s" % (ck, case["type"])
+                res.viol.append((key, "order %d: the harness process running the real table code died\n%s"
                                  % (case["order"], err[:3000])))
-        res.traces = {}
+                crash_trace = _crash_trace(case)
+                if crash_trace:
+                    viols.insert(0, (len(crash_trace), None, None, crash_trace))
+                    res.traces = {key: crash_trace}
+        res.traces = getattr(res, "traces", {})
         for at, key, detail, trace in viols:
-            res.viol.append((key, detail))
-            res.traces[key] = trace
+            if key is not None:
+                res.viol.append((key, detail))
+                res.traces[key] = trace
         if viols:
             res.ops = viols[0][3]
             res.sample = viols[0][3][:30]
@@ -148,6 +156,25 @@ def run_job(case):
         res.inconclusive = "harness exception: %s\n%s" % (e, traceback.format_exc()[-1200:])
     res.wall = time.time() - t0
     return res
+
+
+def _crash_trace(case):
+    """the process died: run the same (deterministic) job again with HT_OPLOG to learn the sequence"""
+    import tempfile
+    fd, path = tempfile.mkstemp(prefix="c17oplog")
+    os.close(fd)
+    try:
+        _exec(_args_of(case), oplog=path)
+        with open(path) as fh:
+            lines = fh.read().split("\n")
+        return [t for t in lines[-1].split(" ") if t]
+    except OSError:
+        return []
+    finally:
+        try:
+            os.unlink(path)
+        except OSError:
+            pass
 
 
 # ---------- reproducer minimisation (delta debugging through the harness' script mode) ----------
@@ -240,7 +267,7 @@ def make_cases(tier):
     if tier == "quick":
         plan = [10000]
     else:
-        plan = [100000, 100000, 25000, 25000, 25000, 25000]
+        plan = [100000, 50000, 25000, 25000]
     for t in TYPES:
         for o in ORDERS:
             for u in RAND_UNIVERSES:
